@@ -29,3 +29,78 @@ def next_ring_state(ring_type: int, state: int):
     ensures(1 <= result[0] and result[0] <= 3 and result[0] <= state, tag="C01:rclip")
     ensures((result[1] is None) == (state - result[0] == 0), tag="C02:rterminal")
     ensures(implies(result[1] is not None, result[1] == state - result[0] and result[1] >= 1), tag="C01,C02:rnext")
+
+
+# ------------------------------------------------------------------------------------------------
+# C16: index code.  INDEX_DOC is the documented order (docs/source/derivation.rst table, pre-v2 branch
+# names modernised as in CHANGELOG v2.0.0; props/C16 re-parses the rst on every run and compares).
+# ------------------------------------------------------------------------------------------------
+INDEX_DOC = ("[C]", "[Ring1]", "[Ring2]", "[Branch1]", "[=Branch1]", "[#Branch1]", "[Branch2]", "[=Branch2]",
+             "[#Branch2]", "[O]", "[N]", "[=N]", "[=C]", "[#C]", "[S]", "[P]")
+INDEX_DOC_CODE = {"[C]": 0, "[Ring1]": 1, "[Ring2]": 2, "[Branch1]": 3, "[=Branch1]": 4, "[#Branch1]": 5,
+                  "[Branch2]": 6, "[=Branch2]": 7, "[#Branch2]": 8, "[O]": 9, "[N]": 10, "[=N]": 11, "[=C]": 12,
+                  "[#C]": 13, "[S]": 14, "[P]": 15}
+
+
+@spec
+def idx(s):
+    return INDEX_DOC_CODE[s] if s in INDEX_DOC_CODE else 0
+
+
+@spec
+def pow16(k: int) -> int:
+    return 1 if k <= 0 else 16 * pow16(k - 1)
+
+
+@spec
+def digit(n: int, j: int) -> int:
+    return mod(div(n, pow16(j)), 16)
+
+
+@lemma
+def pow16_pos(k: int):
+    ensures(pow16(k) >= 1)
+    decreases(k)
+    if k > 0:
+        pow16_pos(k - 1)
+
+
+@lemma
+def div_div16(a: int, p: int):
+    requires(a >= 0 and p >= 1)
+    ensures(div(div(a, p), 16) == div(a, 16 * p))
+
+
+@contract("selfies/grammar_rules.py::get_index_from_selfies", props=["C16", "C02", "C08"])
+def get_index_from_selfies(*symbols: 'tuple<=3'):
+    ensures(implies(len(symbols) == 0, result == 0), tag="C16:dec0")
+    ensures(implies(len(symbols) == 1, result == idx(symbols[0])), tag="C16:dec1")
+    ensures(implies(len(symbols) == 2, result == 16 * idx(symbols[0]) + idx(symbols[1])), tag="C16:dec2")
+    ensures(implies(len(symbols) == 3, result == 256 * idx(symbols[0]) + 16 * idx(symbols[1]) + idx(symbols[2])),
+            tag="C16:dec3")
+    ensures(isinstance(result, int) and 0 <= result and result < 4096, tag="C16:range")
+
+
+@contract("selfies/grammar_rules.py::get_selfies_from_index", props=["C16", "C03", "C10"])
+def get_selfies_from_index(index: int):
+    raises(IndexError, when=index < 0)
+    ensures(index >= 0, tag="C16:neg-raises")
+    ensures(typed(result, 'list') and fresh(result) and len(result) >= 1, tag="C16:nonempty")
+    # big-endian digits: result[len-1-j] is the symbol of the j-th little-endian base-16 digit of index
+    ensures(all(result[len(result) - 1 - j] == INDEX_DOC[digit(index, j)] for j in range(len(result))),
+            tag="C16:digits")
+    ensures(div(index, pow16(len(result))) == 0, tag="C16:complete")
+    ensures(len(result) == 1 or result[0] != INDEX_DOC[0], tag="C16:shortest")
+    ensures(implies(index < 4096, len(result) <= 3), tag="C16:three")
+    invariant("while index", typed(symbols, 'list') and fresh(symbols) and isinstance(index, int) and index >= 0
+              and isinstance(base, int) and base == 16, tag="types")
+    invariant("while index", index == div(old(index), pow16(len(symbols))), tag="quot")
+    invariant("while index", all(symbols[j] == INDEX_DOC[digit(old(index), j)] for j in range(len(symbols))),
+              tag="digits")
+    invariant("while index", old(index) >= 1 and
+              (len(symbols) == 0 or index != 0 or digit(old(index), len(symbols) - 1) != 0), tag="top")
+    invariant("while index", implies(old(index) < 4096, len(symbols) <= 3 and index < pow16(3 - len(symbols))),
+              tag="three")
+    variant("while index", index)
+    use_lemma("while index", pow16_pos(len(symbols)))
+    use_lemma("while index", div_div16(old(index), pow16(len(symbols))))
